@@ -170,6 +170,16 @@ func genC14(t *core.Tape, tier string) *Scenario {
 	// client program
 	cancelAt := -1
 	byCancel := t.Bool(1, 4, "end.by.cancel")
+	if !byCancel && t.Bool(1, 6, "refused.by.interceptor") {
+		// a handler-side interceptor refuses the call: user code never runs and
+		// the request is never read, so a Send larger than the window is still
+		// blocked when the call ends on the other side
+		sc.Handlers[0].NIntercept = 1
+		p.InterceptorErr = true
+		p.HProg = nil
+		p.HErr = &ErrPlan{Code: uint32(1 + t.Choose(16, "err.code")), Msg: "interceptor says no"}
+		sc.Notes["refused_by_interceptor"]++
+	}
 	switch p.Kind {
 	case KUnary:
 	case KClient:
@@ -390,6 +400,17 @@ func checkC14(w *World, st core.Status, r *RunResult) []Violation {
 				if c, m := seqMismatch(p.RespMsgs[:o.H.Sent], o.Recv); c != "" {
 					add("messages-before-outcome/"+c, m)
 				}
+			}
+		}
+		// 6b. a call refused before user code ran reports that refusal, whether
+		// or not its Sends were still blocked at that time
+		if p.InterceptorErr && o.FinalSet && o.CancelStep < 0 {
+			r.Probes["refusal_outcome_checked"]++
+			var ce *connect.Error
+			if o.Final == nil {
+				add("outcome-mismatch/refused", "an interceptor refused the call, client saw success")
+			} else if !errors.As(o.Final, &ce) || ce.Code() != connect.Code(p.HErr.Code) || ce.Message() != p.HErr.Msg {
+				add("outcome-mismatch/refused", fmt.Sprintf("an interceptor refused the call with code %d %q, client got %v", p.HErr.Code, p.HErr.Msg, o.Final))
 			}
 		}
 		// 7. once Receive has reported an error it keeps reporting one
